@@ -145,6 +145,7 @@ class BlockEval:
         self.loopstack = []         # (target, expanded iterable) of the loops being walked
         self._dead = False
         self._pc_out = []
+        self.opaque = set()         # names computed by loops this walker does not summarise
         self.stores = []            # attribute stores: (target text, expanded value, stmt)
         self.objects = set()        # names mutated through method calls
         self.inits = {}             # their initial values
@@ -226,7 +227,10 @@ class BlockEval:
             if isinstance(s.value, ast.Call):
                 self.calls.append((s, self.sub(s.value, pc), list(pc), list(self.loopstack)))
             return
-        if isinstance(s, (ast.Pass, ast.Assert, ast.Import, ast.ImportFrom)):
+        if isinstance(s, (ast.Pass, ast.Assert, ast.Import, ast.ImportFrom, ast.Global, ast.Nonlocal)):
+            return
+        if isinstance(s, (ast.FunctionDef, ast.ClassDef)):
+            self.env.pop(s.name, None)      # a local function that the normaliser could not inline: calls to it stay opaque
             return
         if isinstance(s, (ast.Break, ast.Continue)):
             self._dead = True
@@ -283,6 +287,17 @@ class BlockEval:
                 self._dead, self._pc_out = False, pc + [(t, True)]
                 return
             self.env = joined(set(a) | set(b))
+            self._dead, self._pc_out = False, pc
+            return
+        if isinstance(s, ast.While) and self.loop_ok is not None and not s.orelse:
+            # walked once with every name it assigns opaque (denoting itself) inside and after
+            assigned = {n.id for n in ast.walk(s) if isinstance(n, ast.Name) and isinstance(n.ctx, ast.Store)}
+            for k in assigned:
+                self.env[k] = ast.Name(id=k, ctx=ast.Load())
+            self.opaque |= assigned
+            self.block(s.body, pc)
+            for k in assigned:
+                self.env[k] = ast.Name(id=k, ctx=ast.Load())
             self._dead, self._pc_out = False, pc
             return
         if isinstance(s, ast.For) and self.loop_ok is not None and self.loop_ok(s) and not s.orelse:
